@@ -508,6 +508,9 @@ def _select_histories(recs, limit, rng, want_fault=None, min_runs=1, focus_app=N
                 code[op['app']] = op['ver']
             elif op['op'] == 'run':
                 failing = i + 1 < len(ops) and ops[i + 1]['op'] == 'fault'
+                if all(code[a] == at.get(a, -1) for a in code):
+                    # a run with nothing to do, by driver (the API runs evolve() all the same)
+                    out.append(('idle', op.get('drv'), None))
                 for a in sorted(code):
                     if code[a] != at.get(a, -1):
                         jumps.setdefault(a, []).append((at.get(a, -1), code[a], failing))
@@ -1367,6 +1370,26 @@ PROPERTY HintedRunLeavesTrackedLedgersAlone
         strata.setdefault(shape, []).append(r)
     limit = 60 if tier == 'quick' else 700
     chosen = []
+
+    # a fixed share for histories in which a run meets a GAP in the ledger (a later label recorded,
+    # an earlier one not - after wipe-evolution of the earlier or mark-evolution-applied of the later)
+    def _counts(x):
+        return x if isinstance(x, list) else [x.get(str(i), x.get(i, 0)) for i in (1, 2)]
+
+    def _gap_before_run(r):
+        h = r['hist']
+        for j, op in enumerate(h):
+            if op['op'] in ('run', 'runonly', 'runhint') and j > 0:
+                pre = expected.get(L.key_of(h[:j]))
+                if pre and any(_counts(pre['rec'][a])[0] == 0 and _counts(pre['rec'][a])[1] > 0
+                               for a in ('a1', 'a2')):
+                    return True
+        return False
+    gaps = [r for r in full if _gap_before_run(r)]
+    chosen += gaps[:limit // 5]
+    taken = set(id(r) for r in chosen)
+    for k in strata:
+        strata[k] = [r for r in strata[k] if id(r) not in taken]
     while len(chosen) < limit and any(strata.values()):
         for k in sorted(strata, key=repr):
             if strata[k] and len(chosen) < limit:
